@@ -176,11 +176,15 @@ def do_op(op, qa, qb, V):
             same = all(snap_quantity(q) == s0 for (q, _), s0 in zip(made, snaps)) and all(a is q for a, (q, _) in zip(again, made))
             return "spec-ok" if same else "spec-aliased"
         if op == "readonly":
-            try:
-                qa.SetUnknownCaption("zzz")
-            except ReadOnlyError:
-                return "readonly-ok"
-            return "readonly-missing"
+            # the mutator refuses every caption: a new one, the one the quantity already has, the empty one, None
+            for cap in ("zzz", qa.GetUnknownCaption(), "", None, qb.GetUnknownCaption()):
+                for q_ in (qa, qb):
+                    try:
+                        q_.SetUnknownCaption(cap)
+                    except ReadOnlyError:
+                        continue
+                    return "readonly-missing"
+            return "readonly-ok"
     except (UnitsError, ZeroDivisionError, ValueError, TypeError, AssertionError, KeyError) as e:
         return "exc:" + type(e).__name__
     raise KeyError(op)
